@@ -173,8 +173,11 @@ def checkState (st : St) : List String :=
       -- C01 (b) other containers' exclusive CPUs
       let errs := s.grants.foldl (fun errs h =>
         if h.ctr != c.id && !disj h.exclusive cpus then
-          (if isAncestor s h.pool g.pool then errs ++ [s!"C01:stale-cpuset-after-ancestor-slicing {h.ctr} in {c.id}"]
-           else if ((st.cacheView.find? (·.1 == c.id)).map (fun v => v.2.2.1.getD 0 "-")) == some "-" then
+          -- (the known ancestor-slicing finding has a precise signature: the descendant's cpuset was cleared in the cache
+          --  because its pool ran out of shared CPUs, and the runtime kept the old one)
+          let cleared := ((st.cacheView.find? (·.1 == c.id)).map (fun v => v.2.2.1.getD 0 "-")) == some "-"
+          (if isAncestor s h.pool g.pool && cleared then errs ++ [s!"C01:stale-cpuset-after-ancestor-slicing {h.ctr} in {c.id}"]
+           else if cleared then
              errs ++ [s!"C01:stale-runtime-cpuset-after-clearing {h.ctr} in {c.id}"]
            else errs ++ [s!"C01:exclusive-cpu-in-other-cpuset {h.ctr} in {c.id}"])
         else errs) errs
